@@ -1,7 +1,9 @@
 // Kani harnesses woven into crates/runtime/src/types/iterator.rs: iterator adaptors of the core library driven through
 // the real KIterator (PtrMut<dyn KotoIterator>) over byte-iterator sources.  The dyn dispatch is decidable for CBMC
 // because every iterator in a harness is built from concrete types (the vtable pointers are constants); outputs are
-// Numbers, created and forgotten.  Parameters that select heap shapes (how many adaptors, which) are concrete, element
+// Numbers, created and forgotten.  The unwinding bound is kept at 3 where the harness has no loop of its own: KValue's drop
+// glue is recursive and CBMC unrolls it to that depth wherever a value may be dropped (with 6, a mutated Zip that
+// discards an element took the harness past 20 GB).  Parameters that select heap shapes (how many adaptors, which) are concrete, element
 // values are symbolic.
 // @weave crates/runtime/src/types/iterator.rs
 #![allow(unused)]
@@ -76,7 +78,7 @@ fn c13_adaptor_take() {
 // @timeout 1200
 // @mem 10
 #[kani::proof]
-#[kani::unwind(6)]
+#[kani::unwind(3)]
 fn c13_adaptor_zip() {
     let a: [u8; 2] = kani::any();
     let b: [u8; 3] = kani::any();
@@ -111,7 +113,7 @@ fn c13_adaptor_zip() {
 // @timeout 900
 // @mem 10
 #[kani::proof]
-#[kani::unwind(6)]
+#[kani::unwind(3)]
 fn c13_adaptor_chain() {
     let a: [u8; 2] = kani::any();
     let b: [u8; 2] = kani::any();
@@ -135,7 +137,7 @@ fn c13_adaptor_chain() {
 // @timeout 900
 // @mem 8
 #[kani::proof]
-#[kani::unwind(6)]
+#[kani::unwind(3)]
 fn c13_adaptor_reversed() {
     let a: [u8; 3] = kani::any();
     let original = src(&a);
@@ -165,7 +167,7 @@ fn c13_adaptor_reversed() {
 // @timeout 900
 // @mem 8
 #[kani::proof]
-#[kani::unwind(6)]
+#[kani::unwind(3)]
 fn c13_adaptor_enumerate() {
     let a: [u8; 2] = kani::any();
     let mut e = Enumerate::new(src(&a));
@@ -183,7 +185,7 @@ fn c13_adaptor_enumerate() {
 // @mem 10
 // @tier thorough
 #[kani::proof]
-#[kani::unwind(6)]
+#[kani::unwind(3)]
 fn c13_adaptor_step() {
     let a: [u8; 4] = kani::any();
     let mut st = match Step::new(src(&a), 2) {
